@@ -3,7 +3,7 @@
    oracle outcome: directive update, pre-import, compile, exec/eval, check, traceback search),
    Model/Runner.v (_run_examples). *)
 From XD Require Import Model.Base Model.Parser Model.Checker Model.Text Model.Directive Model.RunLoop Model.Runner
-  Proofs.RunDecide Proofs.RunProofs Proofs.RunEscape Proofs.RunnerProofs.
+  Model.Format Model.Report Proofs.RunDecide Proofs.RunProofs Proofs.RunEscape Proofs.RunnerProofs Proofs.ReportProofs.
 
 (* whatever the parts do (wrong output, exception, compile-only error, raising repr, import failure,
    malformed directive, running event loop), at whatever position, a run asked to return errors
@@ -63,3 +63,36 @@ Theorem C09_abort_iff_escape : forall outs, run_examples outs = None <->
   exists k, nth_error outs k = Some RO_raised /\ forall j, (j < k)%nat -> exists sm, nth_error outs j = Some (RO_summary sm).
 Proof. exact abort_iff_escape. Qed.
 Print Assumptions C09_abort_iff_escape.
+
+(* ---------- the rendering clause (Model/Report.v: DocTest.repr_failure up to the TRACEBACK heading) ---------- *)
+(* every recorded failure can be rendered *)
+Theorem C09_report_exists : forall exname node fpath pfx doc_lineno ps st tb offs partnos j f,
+  r_failed st = Some (j, f) -> (forall i, j = Some i -> nth_error ps i <> None) ->
+  exists lines, repr_failure_head exname node fpath pfx doc_lineno ps st tb offs partnos = Some lines.
+Proof. exact report_exists. Qed.
+Print Assumptions C09_report_exists.
+(* ... and the report names the exception type (first line) and the failing line, in the doctest and in the file *)
+Theorem C09_report_names_type_and_line : forall exname node fpath pfx doc_lineno ps st tb offs partnos lines,
+  repr_failure_head exname node fpath pfx doc_lineno ps st tb offs partnos = Some lines ->
+  exists fo, failed_line_offset ps st tb = Some fo /\
+    failed_lineno doc_lineno ps st tb = Some (doc_lineno + fo)%nat /\
+    nth_error lines 0 = Some (REASON ++ exname) /\
+    nth_error lines 2 = Some (XDOC_OPEN ++ node ++ LINE_MID ++ decimal (fo + 1) ++ WRT_DOCTEST) /\
+    nth_error lines 3 = Some (FILE_OPEN ++ fpath ++ LINE_MID ++ decimal (doc_lineno + fo) ++ COMMA ++ WRT_FILE) /\
+    last lines [] = pfx ++ TRACEBACK_HDR.
+Proof. exact report_lines. Qed.
+Print Assumptions C09_report_names_type_and_line.
+(* the part breakdown: every executed part once and in order -- the ones before the failing part under "Passed Parts", the
+   failing part alone under "Failed Part", the rest under "Remaining Parts"; skipped parts are left out *)
+Theorem C09_breakdown_of_report : forall (texts : list str) j text sk lg,
+  nth_error texts j = Some text -> mem_nat j sk = false ->
+  bd_go (combine (seq 0 (length texts)) texts) sk (Some j) lg 0 =
+  (entries lg sk (combine (seq 0 j) (firstn j texts)), bd_entry lg j text,
+   entries lg sk (combine (seq (S j) (length texts - S j)) (skipn (S j) texts))).
+Proof. exact breakdown_of_report. Qed.
+Print Assumptions C09_breakdown_of_report.
+Theorem C09_breakdown_no_failed_part : forall its sk lg failed,
+  (forall j, failed = Some j -> Forall (fun it => fst it <> j) its) ->
+  bd_go its sk failed lg 0 = (entries lg sk its, [], []).
+Proof. exact breakdown_no_failed_part. Qed.
+Print Assumptions C09_breakdown_no_failed_part.
